@@ -7,10 +7,10 @@ Line-protocol handler for property C11.
 
 * `A` ARGV[1..n] (ARGV[0] is implicit, ARGC = n+1), `S` the records of stdin, `F` the files, `V` the program's global scalar names
 * ops: `e <tag>` | `n` | `nf` | `x <n>` | `x -` | `g` | `gv <v>` | `gf <file>` | `gvf <v> <file>` | `c <ops> ;` | `l <n> <ops> ;` |
-  `i <cond> <ops> ;` | `sa <i> <hex>` | `sc <n>`
+  `i <cond> <ops> ;` | `sa <i> <hex>` | `sc <n>` | `cl <file>`
 * pat: `a` | `p <pcond>` | `r <pcond> <pcond>`;  body: `0` (no action) | `1 <ops> ;`
 * pcond: `<cond>` | `q n <when> <cond>` | `q nf <when> <cond>` (a function that executes next / nextfile when `when` holds, else returns `cond`)
-* cond: `t` | `f` | `h <byte>` | `nr <n>` | `fnr <n>` | `nrge <n>` | `not <cond>` | `veq <v> <hex>` | `and <cond> <cond>`
+* cond: `t` | `f` | `h <byte>` | `nr <n>` | `fnr <n>` | `nrge <n>` | `nrmod <n> <k>` | `not <cond>` | `veq <v> <hex>` | `and <cond> <cond>`
 
 answer: `ok|err <status> <event>*` with events `E:tag:nr:fnr:filename:line:nf:v0,v1,v2`, `G:form:ret`, `P:line`, `X:kind[:value]`
 -/
@@ -63,6 +63,10 @@ def pCond : Nat → Toks → Option ((View → Bool) × Toks)
     | "fnr" :: r => do
       let (n, r) ← pNat r
       pure (fun v => v.fnr == n, r)
+    | "nrmod" :: r => do
+      let (n, r) ← pNat r
+      let (k, r) ← pNat r
+      pure (fun v => v.nr % n == k, r)
     | "nrge" :: r => do
       let (n, r) ← pNat r
       pure (fun v => decide (v.nr ≥ n), r)
@@ -125,6 +129,9 @@ def pOps : Nat → Toks → Option (List Op × Toks)
     | "sc" :: r => do
       let (n, r) ← pNat r
       one (.setArgc n) r
+    | "cl" :: r => do
+      let (f, r) ← pHex r
+      one (.close f) r
     | _ => none
 
 /-- a pattern expression: a plain condition, or `q n|nf <when> <cond>` = a call of
